@@ -280,6 +280,24 @@ def replay(v, work):
     from praatio import textgrid as tgmod
 
     c = v["case"]
+    if c.get("call") == "long-vs-short":
+        # the same data written in the long and in the short layout (plain number style) opens to equal Textgrids
+        spec = dict(c["spec"], tiers=[dict(t, entries=[tuple(e) for e in t["entries"]]) for t in c["spec"]["tiers"]])
+        with contextlib.redirect_stdout(io.StringIO()):
+            for keep in (True, False):
+                got = []
+                for lay, text in (("long", PT.write_long(spec)), ("short", PT.write_short(spec))):
+                    fn = os.path.join(str(work), "replay_%s.TextGrid" % lay)
+                    with open(fn, "wb") as fd:
+                        fd.write(PT.encode(text, "utf-8"))
+                    res = call(tgmod.openTextgrid, fn, keep, "silence", "error")
+                    got.append(snap.tg_snap(res) if res is not None else None)
+                if got[0] is not None and got[1] is not None:
+                    if got[0] != got[1]:
+                        REC.violation(PROP, "open", "long-vs-short", c, "long and short encodings of the same data open to different Textgrids: %r vs %r" % (got[0], got[1]), ("lvs",), v.get("mech") or {})
+                    else:
+                        REC.held("open", ("lvs", keep), None, None)
+        return
     if c.get("file_b64") is None:
         return
     raw = base64.b64decode(c["file_b64"])
